@@ -2,6 +2,7 @@
 `i` (in name order) with respect to variable `j` (in name order), for any rectangular shape. -/
 import FormakVerif.Proofs.QMat
 import FormakVerif.Proofs.PyModel
+import FormakVerif.Proofs.Diff
 
 namespace FormakVerif.C03
 open FormakVerif
@@ -90,6 +91,25 @@ theorem sensor_by_name (d : EkfDef) (s : SensorDef) (env : Env Rat) (spec : List
     intro hi'
     subst h
     simp [unflatten_entry]
+
+/-- **The entries are true partial derivatives.** Under the hypotheses of `entry_is_partial`, and if the
+output itself evaluates at the point, entry `(i,j)` is the derivative — in the sense of Mathlib's
+`HasDerivAt` over ℝ — of `t ↦ outᵢ[wrtⱼ := t]` at the point (fragment `+ − × ÷ ^ℤ`; the model's
+`Expr.diff` is proven correct in `Proofs/Diff.lean` also for `sin cos exp`). -/
+theorem entry_is_true_partial (env : Env Rat) (outs : List Expr) (wrt : List Name) (cols : Nat)
+    (flat : List Rat) (h : EkfDef.evalAll env (jacobianFlat outs wrt) = some flat)
+    (hc : cols ≤ wrt.length) (i : Fin outs.length) (j : Fin cols) (w : ℚ)
+    (hout : (outs[i.val]).eval ratSem env = some w) :
+    HasDerivAt
+      (fun t => evalR (Function.update (realEnv env) (wrt[j.val]'(lt_of_lt_of_le j.isLt hc)) t) (outs[i.val]))
+      (((unflatten outs.length cols wrt.length flat).get i j : ℚ) : ℝ)
+      (realEnv env (wrt[j.val]'(lt_of_lt_of_le j.isLt hc))) :=
+  diff_value_is_derivative env _ _ _ w hout (entry_is_partial env outs wrt cols flat h hc i j)
+
+/-- the model's symbolic differentiation is the analytic derivative wherever the expression is defined -/
+theorem model_diff_correct (ρ : Name → ℝ) (x : Name) (e : Expr) (h : DefinedR ρ e) :
+    HasDerivAt (fun t => evalR (Function.update ρ x t) e) (evalR ρ (e.diff x)) (ρ x) :=
+  diff_correct ρ x e h
 
 /-- why the stride must be the number of *columns of the program*: with 2 readings over 3 columns,
 un-flattening with stride 2 (the number of readings) misplaces the second row -/
